@@ -107,8 +107,18 @@ class Lsp:
     def alive(self):
         return self.p.poll() is None
 
-    def initialize(self):
-        r = self.request("initialize", {"processId": None, "rootUri": "file://" + self.root, "capabilities": {}}, timeout=20)
+    def initialize(self, position_encodings=None):
+        """position_encodings: what the client offers in general.positionEncodings (LSP 3.17); the encoding the server
+        announces (utf-16 when it announces none) is kept in self.position_encoding"""
+        caps = {}
+        if position_encodings:
+            caps = {"general": {"positionEncodings": list(position_encodings)}}
+        r = self.request("initialize", {"processId": None, "rootUri": "file://" + self.root, "capabilities": caps}, timeout=20)
+        self.position_encoding = "utf-16"
+        try:
+            self.position_encoding = r["result"]["capabilities"].get("positionEncoding") or "utf-16"
+        except Exception:
+            pass
         self.notify("initialized", {})
         return r
 
